@@ -186,6 +186,10 @@ def _run(ctx, pid, thorough, rng, exe, tmp):
                               {"kind": "memcheck", "script": vs[0].s.text(), "config": vs[0].cfg, "report": "\n\n".join(blocks[:5])[:8000]})
         except build.BuildError as ex:
             ctx.infra_fail("plain build failed: %s" % ex)
+    # C06 "readers racing the receiver": concurrent queue sessions under the baton scheduler (Trace_Lin)
+    if pid == "C06":
+        from checks import conc_api
+        conc_api.sessions(ctx, pid, thorough, rng, exe, tmp)
     for s, ev in items[:2]:
         ctx.sample({"session": s.sid, "events": [{x: e[x] for x in e if x not in ("st", "cfg")} for e in ev[1:8]]})
     ctx.cov["rule"] = ("cases = events executed on the real library in normal mode; distinct = distinct (event kind, message type or function, "
